@@ -1,6 +1,5 @@
 SPECIFICATION Spec
-CONSTANTS NIds = 4
-  Colliding = FALSE
+CONSTANT NIds = 2
 INVARIANT Inv
 PROPERTY RejectedIsStutter
 CHECK_DEADLOCK FALSE
